@@ -636,7 +636,7 @@ func (e *Env) appendOp(fr *Frame, s *Slice, more Value, st *State) Value {
 	// case 1: in place; case 2: reallocation
 	r := e.alloc(st)
 	newCap := e.fresh("appcap", sInt)
-	e.assume(mkAnd(sx(">=", newCap, newLen), sx("<=", newCap, "4611686018427387904")))
+	e.assume(mkAnd(sx(">=", newCap, newLen), sx("<=", newCap, "281474976710656")))
 	resArr := e.maybeName(mkIte(fits, s.Arr, r), sInt)
 	resOff := e.maybeName(mkIte(fits, s.Off, "0"), sInt)
 	resCap := e.maybeName(mkIte(fits, s.Cap, newCap), sInt)
